@@ -26,6 +26,25 @@ WIRE["HeadersMacro"] = WIRE["Headers"]
 WIRE["Echo"] = ("echo", {"pe": ("path", 2), "qe": ("query", "qe"), "qo": ("query", "qo"), "ql": ("query", "ql"), "he": ("header", "x-he"),
                          "ho": ("header", "x-ho"), "pq": ("query", "pq"), "po": ("query", "po"), "pl": ("query", "pl"),
                          "ph": ("header", "x-ph"), "pho": ("header", "x-pho")})
+WIRE["Path"] = ("pathParams", {"s": ("path", 2), "i": ("path", 4), "d": ("path", 5), "b": ("path", 6), "u": ("path", 7), "r": ("path", 8),
+                              "l": ("path", 9), "t": ("path", 10), "e": ("path", 11), "a": ("path", 12)})
+# declared PLAIN type of typed arguments, for near-valid "unparsable" values (text a lenient parser might let through)
+PLAIN_TYPE = {"Path": {"i": "int", "d": "double", "b": "bool", "u": "uuid", "r": "rid", "l": "safelong", "t": "datetime", "e": "enum"},
+              "Names": {"type": "int", "fooBar": "uuid", "async": "int", "camelCase": "int", "self": "int", "snake_arg": "int", "match": "bool"},
+              "Headers": {"ho": "int", "hu": "uuid", "hd": "double", "he": "enum"}, "Regex": {"n": "int"},
+              "Query": {"qo": "int", "ql": "double", "qe": "enum", "qa": "double", "qb": "bool"}}
+PLAIN_TYPE["NamesMacro"] = PLAIN_TYPE["Names"]
+PLAIN_TYPE["HeadersMacro"] = dict(PLAIN_TYPE["Headers"], he=None)
+NEAR_VALID = {
+    "int": ["1.0", "+-1", "0x10", "2147483648", "1_000", "1e3"],
+    "double": ["1e", "1.5.2", "1,5", "0x1p3", "--1"],
+    "bool": ["TRUE", "1", "yes", "True", "t"],
+    "uuid": ["6ba7b810-9dad-11d1-80b4-00c04fd430c", "6ba7b810-9dad-11d1-80b4-00c04fd430c8x", "6ba7b810_9dad_11d1_80b4_00c04fd430c8", "zzzzzzzz-9dad-11d1-80b4-00c04fd430c8"],
+    "rid": ["ri.a.b.c", "ri.A.b.c.d", "ri..b.c.d", "rid.a.b.c.d", "ri.a.b.c.", "ri.a.-.c.d"],
+    "safelong": ["9007199254740992", "-9007199254740992", "1.0", "9223372036854775808"],
+    "datetime": ["2017-01-02T03:04:05+0100", "2017-1-2T3:4:5Z", "2017-01-02T03:04:05 UTC", "2017-01-02", "20170102T030405Z", "2017-01-02T03:04:05"],
+    "enum": ["red", "R ED", "", "RED-1", "rEd"],
+}
 WIRE["Ids"] = ("idsPath", {"ids": ("path", 2)})
 WIRE["Regex"] = ("regexPath", {"n": ("path", 2)})
 WIRE["Attrs"] = ("attrs", {"b": ("path", 2), "bee": ("path", 3), "sea": ("path", 4), "pq": ("query", "q1"), "hh": ("header", "x-h1"), "ls": ("query", "ls")})
@@ -56,6 +75,9 @@ def base_args(ep, salt):
         d["ql"] = ["ok:" + mk("ql")]
         d["pl"] = ["ok:" + mk("pl")]
         return d
+    if ep == "Path":
+        return {"s": mk("s"), "i": 430000 + salt % 1000, "d": 4400.5 + salt % 1000, "b": bool(salt % 2), "u": "6ba7b810-9dad-11d1-80b4-%012x" % (salt % 2**40),
+                "r": "ri.svc.i%d.typ.loc" % (salt % 1000), "l": 9007199254740000 + salt % 900, "t": "2017-01-02T03:04:%02dZ" % (salt % 60), "e": "RED", "a": mk("a")}
     if ep == "Regex":
         return {"n": 470000 + salt % 1000}
     if ep == "Ids":
@@ -97,6 +119,15 @@ def mutations(ep, adesc, outcome, args, salt):
     """request mutation that realises `outcome` for argument adesc; returns (ops, marker injected by the mutation)"""
     kind, wname = WIRE[ep][1][adesc["name"]]
     bad = "MKbad%s%d" % (adesc["name"], salt)
+    ptype = PLAIN_TYPE.get(ep, {}).get(adesc["name"])
+    if outcome == "unparsable" and ptype and salt % 2 == 1 and adesc.get("card") != "many" and kind in ("path", "query", "header"):
+        # text that is nearly a value of the declared type
+        near = NEAR_VALID[ptype][(salt // 2) % len(NEAR_VALID[ptype])]
+        if kind == "path" and near == "":
+            near = "%20"
+        op = {"path": {"op": "set_path", "index": wname, "value": near}, "query": {"op": "set_query", "key": wname, "value": near},
+              "header": {"op": "set_header", "name": wname, "value": near}}[kind]
+        return [op], None
     if outcome == "ok":
         return [], None
     if kind == "query":
@@ -176,7 +207,7 @@ def flavours(ep, k):
 def run_model(pid, tier):
     """TLC over all endpoint configs; returns (cases, states, transitions, runs, coverage)"""
     cases, states, transitions, runs, cov = [], 0, 0, [], {}
-    for ep in ("SafeMix", "Names", "NamesMacro", "Headers", "HeadersMacro", "Echo", "Attrs", "Regex", "Ids", "Query", "AuthCookie", "OptBody", "SafeBody"):
+    for ep in ("SafeMix", "Names", "NamesMacro", "Headers", "HeadersMacro", "Echo", "Attrs", "Regex", "Ids", "Path", "Query", "AuthCookie", "OptBody", "SafeBody"):
         r = vc.tlc(pid, "MCEndpoint", "MCEndpoint_%s%s.cfg" % (ep, "_t" if tier == "thorough" else ""), workers=4 if tier == "quick" else 12, timeout_s=3000)
         if r.error:
             raise vc.ToolError("MCEndpoint_%s: %s" % (ep, r.error))
